@@ -414,3 +414,21 @@ func EveryNth(ms []*Model, n, offset int) []*Model {
 	}
 	return out
 }
+
+// MaskableRows: some relation admits both a direct user type and the typed wildcard of that type with a
+// condition on one of them, so that a request user can match two rows of one object (see
+// e2.SameObjectRowMasked).
+func (m *Model) MaskableRows() bool {
+	for _, rels := range m.Types {
+		for _, d := range rels {
+			for _, a := range d.Restr {
+				for _, b := range d.Restr {
+					if a.Type == b.Type && a.Rel == "" && b.Rel == "" && !a.Wildcard && b.Wildcard && (a.Cond != "" || b.Cond != "") {
+						return true
+					}
+				}
+			}
+		}
+	}
+	return false
+}
